@@ -32,6 +32,9 @@ TNext ==
               /\ (e.i \in dead) => Viol("C16: an object is destroyed twice")
               /\ (e.i \in owned) => Viol("C16: an object is destroyed while another owner still holds it")
               /\ (cbOn /\ e.t # 0 /\ inop[e.t] = "destroy" /\ e.i \notin cbd) => Viol("C16: an object reaped by destroyObjects was destroyed without its callback")
+              \* delayed destruction: once handed over, an object dies in a destroyObjects call or with the container, never at the
+              \* moment its last outside owner lets go (the container would have lost it)
+              /\ (e.t # 0 /\ inop[e.t] \notin {"destroy", "add_temp"}) => Viol("C16: the container lost an object: it is destroyed by the thread dropping the last outside reference, not by destroyObjects or the container's destructor")
               /\ dead' = dead \cup {e.i} /\ UNCHANGED <<added, owned, cbd, inop, cbOn, gone>>
          [] e.k = "ddgone" ->
               /\ (added # dead) => Viol("C16: an object handed to the container was not destroyed by the time the container is gone")
